@@ -521,7 +521,7 @@ package op
 // The wrapped handler (dyn:handler, see specs) is reached only for a verified client with the
 // requested grant registered; every other outcome is an error response.
 //@ func op.webServer.withClient$1
-//@   requires !Resp_written[w] && valid(w) && valid(r) && valid(s)
+//@   requires !Resp_written[w] && valid(w) && valid(r)
 
 // Legacy token endpoint: a grant handler is dispatched only when the provider supports that grant.
 //@ func op.Exchange
